@@ -266,6 +266,52 @@ theorem bcast_local {n : Net} (hn : n ∈ w.nets) (s : Addr) (m : Bvll) :
     congr 1; funext nd
     simp only [reactOut, hhit, hsd, decide_eq_true_eq]
 
+/-! ### directed broadcast into another network (one-hop BBMD distribution) -/
+
+/-- a datagram addressed to the broadcast address of ANOTHER network `nc` whose router port
+    accepts that address ("the router forwards directed broadcasts"): nobody on the sender's
+    network takes it, the router puts it on `nc` -/
+theorem directed_remote {n nc : Net} (hn : n ∈ w.nets) (hnc : nc ∈ w.nets) (hne : n.id ≠ nc.id)
+    (hcov : nc.covers nc.bcast = true) {z : Node} (hz : z ∈ n.nodes) (s : Addr) (m : Bvll) :
+    obsS w ⟨n.id, s, nc.bcast, m⟩ = [] ∧
+    outS w ⟨n.id, s, nc.bcast, m⟩ = [⟨nc.id, s, nc.bcast, m⟩] := by
+  have hnb : nc.bcast ≠ n.bcast := by
+    intro h
+    have := hw.2.2.2.2 n hn nc hnc (h ▸ hcov)
+    exact hne this.symm
+  have hhit : ∀ a, hits n ⟨n.id, s, nc.bcast, m⟩ a = decide (a = nc.bcast) := by
+    intro a; simp [hits, hnb]
+  have hnone : ∀ nd ∈ n.nodes, nd.addr ≠ nc.bcast := fun nd hnd => hw.2.2.1 nc hnc n hn nd hnd
+  constructor
+  · rw [obsS_on hw hn _ rfl]
+    unfold netObs
+    rw [List.flatMap_eq_nil_iff]
+    intro nd hnd
+    simp [reactObs, hhit, hnone nd hnd]
+  · rw [outS_on hw hn _ rfl]
+    unfold netOut
+    have h2 : n.nodes.flatMap (reactOut w.now n ⟨n.id, s, nc.bcast, m⟩) = [] := by
+      rw [List.flatMap_eq_nil_iff]
+      intro nd hnd
+      simp [reactOut, hhit, hnone nd hnd]
+    obtain ⟨p, hp⟩ := hw.router_some hn hz
+    have hsees : routerSees n ⟨n.id, s, nc.bcast, m⟩ = true := by
+      simp [routerSees, hp, hnb]
+    have hr : routerOuts w.nets n ⟨n.id, s, nc.bcast, m⟩ = [⟨nc.id, s, nc.bcast, m⟩] := by
+      unfold routerOuts
+      rw [filter_pick (·.id) _ w.nets nc hnc hw.1]
+      · rfl
+      · intro x hx
+        simp only [decide_eq_true_eq]
+        constructor
+        · intro h; exact hw.2.2.2.2 nc hnc x hx h.2
+        · intro h
+          have : x = nc := hw.net_eq hx hnc h
+          subst this
+          exact ⟨fun h' => hne h'.symm, hcov⟩
+    rw [h2, hsees, hr]
+    simp
+
 /-! ### the node that acts -/
 
 omit hw in
